@@ -362,7 +362,7 @@ class C08(Prop):
         if kind == "loopterm":
             c["out"] = [self._str(rng) for _ in range(rng.randrange(0, 3))]
         for _ in range(rng.randrange(1, 4)):
-            if d < 2 and rng.random() < 0.3:
+            if d < 3 and rng.random() < (0.45 if d == 0 else 0.4):
                 sub = self._comb(rng, names, d + 1)
                 c["sub"].append({"c": sub, "ports": [f"p{rng.randrange(9)}" for _ in range(rng.randrange(1, 3))]})
             else:
@@ -378,7 +378,7 @@ class C08(Prop):
             kind = rng.choice(["scatter", "gather", "comb", "comb", "loopcomb", "plain", "plain", "jobin", "execute"]
                               + (["deploy", "schedule"] * 2 if with_cfg else []))
             st = {"name": f"/step{i}" + rng.choice(["", "-scatter", "/é"]), "kind": kind,
-                  "in": {}, "out": {}, "status": rng.choice([0, 0, 1, 2, 4, 5, 3])}
+                  "in": {}, "out": {}, "status": rng.choice([0, 0, 1, 2, 4, 5, 3])}   # 6 (CANCELLED): corpus only, known finding
             for j in range(rng.randrange(0, 3)):
                 st["in"][rng.choice(["a", "b", "in", "x y"]) + str(j)] = rng.randrange(nports)
             for j in range(rng.randrange(0, 3)):
@@ -452,7 +452,11 @@ class C08(Prop):
                            "service": rng.choice([None, "svc", "é"]), "workdir": rng.choice([None, "/t"])})
         fs = [{"name": self._str(rng), "type": rng.choice(["shuffle", "matching"]),
                "config": rng.choice([None, {}, {"filters": [self._json(rng, 1)]}])} for _ in range(rng.randrange(0, 3))]
-        return {"f": "cfg", "targets": ts, "filters": fs}
+        case = {"f": "cfg", "targets": ts, "filters": fs}
+        plain = [i for i, t in enumerate(ts) if not t["local"]]
+        if len(plain) >= 2 and rng.random() < 0.0:     # sharing is a known finding: corpus only
+            case["share"] = plain[:2]
+        return case
 
     def gen(self, rng, tier):
         n = {"quick": 150, "thorough": 1500, "extended": 800}[tier]
@@ -630,7 +634,8 @@ class C08(Prop):
         ws = self.m["wstep"]
         steps = {}
         for n, s in wf.steps.items():
-            d = {"cls": type(s).__name__, "name": s.name, "status": int(s.status), "in": dict(s.input_ports),
+            d = {"cls": type(s).__name__, "name": s.name, "status": int(s.status), "terminated": bool(s.terminated),
+                 "in": dict(s.input_ports),
                  "out": dict(s.output_ports), "wf_is_this": s.workflow is wf}
             d["fcls"] = self.m["utils"].get_class_fullname(type(s))
             if isinstance(s, ws.GatherStep):
@@ -701,6 +706,8 @@ class C08(Prop):
                 for n, p in st["out"].items():
                     s.add_output_port(n, ports[p])
                 s.status = m["Status"](st["status"])
+                # what every terminate() leaves behind: terminated is set for each final status
+                s.terminated = st["status"] in (3, 4, 5, 6)
             wf.output_ports = dict(case["output_ports"])
             wf.input_ports = dict(case["input_ports"])
             await wf.save(ctx.database)
@@ -785,6 +792,8 @@ class C08(Prop):
                     workdir=d["workdir"],
                     wraps=dm.WrapsConfig(deployment=d["wraps"]["deployment"], service=d["wraps"]["service"])
                     if d["wraps"] else None)
+                if case.get("share") and len(ts) == case["share"][1]:
+                    dc = ts[case["share"][0]].deployment        # the very same DeploymentConfig object
                 ts.append(dm.Target(deployment=dc, locations=t["locations"], service=t["service"], workdir=t["workdir"]))
         fs = [dm.FilterConfig(name=f["name"], type=f["type"], config=copy.deepcopy(f["config"])) for f in case["filters"]]
         return self.m["BindingConfig"](targets=ts, filters=fs)
@@ -797,7 +806,10 @@ class C08(Prop):
 
     def _dump_binding(self, b):
         dm = self.m["dep"]
-        return {"targets": [{"local": type(t) is dm.LocalTarget, "cls": type(t).__name__, "dep": self._dump_dep(t.deployment),
+        shared = [[i, j] for i, a in enumerate(b.targets) for j, c in enumerate(b.targets)
+                  if i < j and a.deployment is c.deployment]
+        return {"shared_deployments": shared,
+                "targets": [{"local": type(t) is dm.LocalTarget, "cls": type(t).__name__, "dep": self._dump_dep(t.deployment),
                              "locations": t.locations, "service": t.service, "workdir": t.workdir} for t in b.targets],
                 "filters": [{"name": f.name, "type": f.type, "config": copy.deepcopy(f.config)} for f in b.filters]}
 
@@ -908,7 +920,7 @@ class C08(Prop):
     def _strip_ids(self, d):
         # for the builder copy: no persistent identity, and the run state (status) is reset on purpose
         if isinstance(d, dict):
-            return {k: self._strip_ids(v) for k, v in d.items() if k not in ("has_id", "status")}
+            return {k: self._strip_ids(v) for k, v in d.items() if k not in ("has_id", "status", "terminated")}
         return d
 
     def _diff(self, a, b, path=""):
@@ -923,6 +935,14 @@ class C08(Prop):
 
     def signature(self, case, o, clause):
         where = ""
+        if case["f"] == "cfg" and clause == "config-roundtrip" and "orig" in o:
+            for k in ("l1", "l2"):
+                if json.dumps(o["orig"], sort_keys=True) != json.dumps(o[k], sort_keys=True):
+                    d = self._diff(o["orig"], o[k]).split(":")[0]
+                    vocab = ("shared_deployments", "targets", "filters", "dep", "config", "policy", "wraps", "workdir",
+                             "locations", "service", "name", "type", "external", "lazy", "local", "cls")
+                    where = "/" + "/".join(p for p in d.split("/") if p in vocab)
+                    break
         if case["f"] == "wf" and clause in ("workflow-roundtrip", "builder-copy", "loads-independent",
                                             "stored-record-unchanged") and "orig" in o:
             for k in ("l1", "l2", "copy", "l2_after", "l3", "copy_after"):
@@ -931,7 +951,7 @@ class C08(Prop):
                 if k in o and json.dumps(a, sort_keys=True) != json.dumps(b, sort_keys=True):
                     d = self._diff(a, b).split(":")[0]
                     # the structural part of the path only (no concrete step / port / key names)
-                    vocab = ("steps", "ports", "in", "out", "status", "comb", "items", "map", "sub", "depth", "config",
+                    vocab = ("steps", "ports", "in", "out", "status", "terminated", "comb", "items", "map", "sub", "depth", "config",
                              "output_ports", "input_ports", "name", "cls", "wf_is_this", "has_id")
                     where = "/" + "/".join(p for p in d.split("/") if p in vocab)
                     break
@@ -971,8 +991,8 @@ class C08(Prop):
 
     def coq_case(self, case, o):
         if case["f"] == "cfg":
-            if "tables" not in o:
-                return None
+            if "tables" not in o or o["orig"]["shared_deployments"]:
+                return None          # shared configuration objects: outside the (tree) model
             orig, db = coq_pbinding(o["orig"]), coq_cdb(o["tables"])
             if orig is None or db is None:
                 return None
